@@ -178,11 +178,14 @@ def check_lend(eng, run, rule="C10.lend", cancel_arm=True):
         selfn = gb.self_name
         # attributes whose value get_buffer may return
         returned = set()
+        from sa.analyses.buffers import through_local
         for node in own_nodes(gb.node):
             if isinstance(node, ast.NamedExpr) and isinstance(node.value, ast.Attribute) and dotted(node.value.value) == selfn:
                 returned.add(dotted(node.value))
-            if isinstance(node, ast.Return) and isinstance(node.value, ast.Attribute) and dotted(node.value.value) == selfn:
-                returned.add(dotted(node.value))
+            if isinstance(node, ast.Return) and node.value is not None:
+                v = through_local(gb, node.value)  # `view = self.__x; if view is not None: return view`
+                if isinstance(v, ast.Attribute) and dotted(v.value) == selfn:
+                    returned.add(dotted(v))
         for fn in ci.methods.values():
             if not fn.is_async or isinstance(fn.node, ast.Lambda):
                 continue
@@ -324,9 +327,14 @@ def check_withdraw(eng, run, rule="C10.lend"):
         if gb is None or bu is None:
             continue
         returned = set()
+        from sa.analyses.buffers import through_local
         for node in own_nodes(gb.node):
             if isinstance(node, ast.NamedExpr) and isinstance(node.value, ast.Attribute) and dotted(node.value.value) == gb.self_name:
                 returned.add(node.value.attr)
+            if isinstance(node, ast.Return) and node.value is not None:
+                v = through_local(gb, node.value)
+                if isinstance(v, ast.Attribute) and dotted(v.value) == gb.self_name:
+                    returned.add(v.attr)
         # only attributes that some method fills from a parameter (a caller-owned buffer)
         lent = set()
         for fn in ci.methods.values():
